@@ -1122,5 +1122,10 @@ theorem facts_key_tracked_once : Facts.storeDropsTracked = true ∧ Facts.keyMap
 /-- manager.go `get` blanks the item when `UnmarshalMsg` fails, and the hit condition of cache.go goes through
     `manager.loadBody` – what `lookup1` (`Fault.noEntry`) and `sec1Found` (body `Get` failed → not served) transcribe -/
 theorem facts_get_faults_are_misses : Facts.getFaultsAreMisses = true := by decide
+/-- every byte slice the stored item keeps (`e.body`, `e.ctype`, `e.cencoding`, `e.headers[…]`) is assigned from
+    `utils.CopyBytes(…)` (or `nil`) in cache.go: the item owns its bytes – what `mkItem` (a value, not a view of the
+    response) transcribes. fasthttp recycles the buffers of a response with its connection context; an aliased
+    header value would be overwritten by the next response served on that connection. -/
+theorem facts_stored_slices_copied : Facts.storedSlicesCopied = true := by decide
 
 end C14
